@@ -148,20 +148,15 @@ func (sv *Solver) solve(name, script string, modelTerms []string, wantSat bool) 
 		record([]raceResult{{solvers[0].name, a, o, el}})
 		res.Answer, res.Solver, res.Seconds, res.Output = a, solvers[0].name, el, truncate(o, 2000)
 	} else {
-		// stage 1: z3-new alone, 2 s (most queries end here); stage 2: race all three with the quick timeout;
-		// stage 3: race z3-new and cvc5 with the long timeout
-		a, o, el := runSolver(solvers[0], file, 2)
-		record([]raceResult{{solvers[0].name, a, o, el}})
-		res.Answer, res.Solver, res.Seconds, res.Output = a, solvers[0].name, el, truncate(o, 2000)
-		if a != "unsat" && a != "sat" {
-			best, all := race(solvers, file, sv.quickT)
+		// stage 1: z3-new and cvc5 race with the quick timeout (each has query shapes the other stalls on);
+		// stage 2: all three race with the long timeout
+		best, all := race([]solverSpec{solvers[0], solvers[2]}, file, sv.quickT)
+		record(all)
+		res.Answer, res.Solver, res.Seconds, res.Output = best.answer, best.name, best.el, truncate(best.out, 2000)
+		if best.answer != "unsat" && best.answer != "sat" {
+			best, all = race(solvers, file, sv.longT)
 			record(all)
 			res.Answer, res.Solver, res.Seconds, res.Output = best.answer, best.name, res.Seconds+best.el, truncate(best.out, 2000)
-			if best.answer != "unsat" && best.answer != "sat" {
-				best, all = race([]solverSpec{solvers[0], solvers[2]}, file, sv.longT)
-				record(all)
-				res.Answer, res.Solver, res.Seconds, res.Output = best.answer, best.name, res.Seconds+best.el, truncate(best.out, 2000)
-			}
 		}
 	}
 	sv.mu.Lock()
@@ -170,7 +165,7 @@ func (sv *Solver) solve(name, script string, modelTerms []string, wantSat bool) 
 	if res.Answer == "sat" && !wantSat && len(modelTerms) > 0 {
 		res.Model = sv.getModel(file, script, modelTerms)
 	}
-	if res.Answer == "unsat" && !wantSat || res.Answer == "sat" && wantSat {
+	if (res.Answer == "unsat" && !wantSat || res.Answer == "sat" && wantSat) && (os.Getenv("GOVC_KEEP") == "" || res.Seconds < 1.5) {
 		os.Remove(file)
 	}
 	sv.mu.Lock()
